@@ -90,12 +90,22 @@ Definition opens (item : tree) : Prop :=
   exists c f, child "context_expr" item = Some c /\ kind_of c = $"Call" /\ child "func" c = Some f /\
               kind_of f = $"Name" /\ attr_d "id" f = $"open".
 
-Definition node_ok (ap : bool) (d : tree) : Prop :=
+(* a name that is (or hands out) a module, a loader or a by-name attribute lookup *)
+Definition name_ok (n : str) : Prop :=
+  ~ In n PY_ESCAPE_ATTRS /\ ~ In (lstrip [95] n) PY_DANGEROUS_MODULES.
+
+Definition node_ok (ap : bool) (callee : bool) (d : tree) : Prop :=
   (kind_of d = $"Import" -> forall a, In a (children "names" d) -> mod_ok (attr_d "name" a)) /\
-  (kind_of d = $"ImportFrom" -> exists m, attr "module" d = Some m /\ mod_ok m) /\
+  (kind_of d = $"ImportFrom" ->
+     exists m, attr "module" d = Some m /\ mod_ok m /\
+               forall a, In a (children "names" d) -> name_ok (attr_d "name" a)) /\
   (kind_of d = $"Call" -> forall f, child "func" d = Some f -> callee_ok ap f) /\
-  (kind_of d = $"Attribute" -> ~ In (attr_d "attr" d) PY_REFLECTION_ATTRS) /\
-  (kind_of d = $"Name" -> ~ In (attr_d "id" d) PY_DANGEROUS_NAMES) /\
+  (kind_of d = $"Attribute" -> ~ In (attr_d "attr" d) PY_REFLECTION_ATTRS /\ name_ok (attr_d "attr" d)) /\
+  (kind_of d = $"Name" ->
+     ~ In (attr_d "id" d) PY_DANGEROUS_NAMES /\
+     (* a dangerous builtin may only be mentioned as the callee of a call (judged there) or be stored to *)
+     (is_load d = true -> callee = false -> In (attr_d "id" d) PY_DANGEROUS_BUILTINS ->
+        attr_d "id" d = $"print" /\ ap = true)) /\
   kind_of d <> $"AsyncFunctionDef" /\ kind_of d <> $"Await" /\
   (kind_of d = $"With" -> forall it, In it (children "items" d) -> ~ opens it).
 
@@ -115,6 +125,11 @@ Proof.
   destruct (mem_str (root_of m) PY_SAFE_MODULES) eqn:E4; cbn [negb].
   { apply mem_str_In in E4. tauto. }
   apply not_mem in E3. apply not_mem in E4. split; [discriminate|tauto].
+Qed.
+
+Lemma module_like_false n : module_like n = false <-> name_ok n.
+Proof.
+  unfold module_like, name_ok. rewrite orb_false_iff, !not_mem. tauto.
 Qed.
 
 Lemma flat_map_nil {A B} (f : A -> list B) l : flat_map f l = [] <-> forall x, In x l -> f x = [].
@@ -193,7 +208,7 @@ Qed.
 Ltac conj8 := refine (conj _ (conj _ (conj _ (conj _ (conj _ (conj _ (conj _ _))))))).
 
 (* the visitor's own per-node test is the readable predicate *)
-Lemma local_nil_iff ap d : local ap d = [] <-> node_ok ap d.
+Lemma local_nil_iff ap callee d : local ap callee d = [] <-> node_ok ap callee d.
 Proof.
   unfold local, node_ok. pose proof (klass_inv (kind_of d)) as HK.
   destruct (klass (kind_of d)) eqn:EK; try rewrite HK.
@@ -206,22 +221,44 @@ Proof.
     split.
     + intros H. conj8; try (intro E; discriminate E).
       intros _. destruct (attr "module" d) as [m|]; [|discriminate]. exists m. split; [reflexivity|].
-      apply mod_viols_nil. exact H.
-    + intros [_ [H _]]. destruct (H eq_refl) as [m [Em Hm]]. rewrite Em. apply mod_viols_nil. exact Hm.
+      apply app_eq_nil in H as [H1 H2]. split; [apply mod_viols_nil; exact H1|].
+      intros a Ha. rewrite flat_map_nil in H2. specialize (H2 a Ha). apply module_like_false.
+      destruct (module_like (attr_d "name" a)); [discriminate|reflexivity].
+    + intros [_ [H _]]. destruct (H eq_refl) as [m [Em [Hm Hn]]]. rewrite Em.
+      apply mod_viols_nil in Hm. rewrite Hm. cbn [app]. apply flat_map_nil. intros a Ha.
+      specialize (Hn a Ha). apply module_like_false in Hn. rewrite Hn. reflexivity.
   - (* Call *)
     rewrite call_viols_nil. split.
     + intros H. conj8; try (intro E; discriminate E). intros _. exact H.
     + intros [_ [_ [H _]]]. apply H. reflexivity.
   - (* Attribute *)
     destruct (mem_str (attr_d "attr" d) PY_REFLECTION_ATTRS) eqn:E.
-    + apply mem_str_In in E. split; [discriminate|]. intros [_ [_ [_ [H _]]]]. exfalso. exact (H eq_refl E).
-    + apply not_mem in E. split; [intros _|reflexivity].
-      conj8; try (intro E0; discriminate E0). intros _. exact E.
+    + apply mem_str_In in E. split; [discriminate|]. intros [_ [_ [_ [H _]]]]. exfalso. destruct (H eq_refl) as [H1 _]. exact (H1 E).
+    + apply not_mem in E. destruct (module_like (attr_d "attr" d)) eqn:EM.
+      * split; [discriminate|]. intros [_ [_ [_ [H _]]]]. destruct (H eq_refl) as [_ H2].
+        apply module_like_false in H2. congruence.
+      * apply module_like_false in EM. split; [intros _|reflexivity].
+        conj8; try (intro E0; discriminate E0). intros _. split; assumption.
   - (* Name *)
     destruct (mem_str (attr_d "id" d) PY_DANGEROUS_NAMES) eqn:E.
-    + apply mem_str_In in E. split; [discriminate|]. intros [_ [_ [_ [_ [H _]]]]]. exfalso. exact (H eq_refl E).
-    + apply not_mem in E. split; [intros _|reflexivity].
-      conj8; try (intro E0; discriminate E0). intros _. exact E.
+    + apply mem_str_In in E. split; [discriminate|]. intros [_ [_ [_ [_ [H _]]]]]. exfalso. destruct (H eq_refl) as [H1 _]. exact (H1 E).
+    + apply not_mem in E.
+      destruct (is_load d) eqn:EL; cbn [andb].
+      2:{ split; [intros _|reflexivity]. conj8; try (intro E0; discriminate E0). intros _. split; [exact E|]. intro X; discriminate X. }
+      destruct callee; cbn [negb andb].
+      { split; [intros _|reflexivity]. conj8; try (intro E0; discriminate E0). intros _. split; [exact E|]. intros _ X; discriminate X. }
+      destruct (mem_str (attr_d "id" d) PY_DANGEROUS_BUILTINS) eqn:ED; cbn [andb].
+      2:{ apply not_mem in ED. split; [intros _|reflexivity]. conj8; try (intro E0; discriminate E0). intros _. split; [exact E|].
+          intros _ _ X. contradiction. }
+      apply mem_str_In in ED.
+      destruct (str_eqb_spec (attr_d "id" d) $"print") as [Ep|Ep]; cbn [andb negb].
+      * destruct ap; cbn [negb].
+        -- split; [intros _|reflexivity]. conj8; try (intro E0; discriminate E0). intros _. split; [exact E|].
+           intros _ _ _. split; [exact Ep|reflexivity].
+        -- split; [discriminate|]. intros [_ [_ [_ [_ [H _]]]]]. destruct (H eq_refl) as [_ H2].
+           destruct (H2 eq_refl eq_refl ED) as [_ X]. discriminate X.
+      * split; [discriminate|]. intros [_ [_ [_ [_ [H _]]]]]. destruct (H eq_refl) as [_ H2].
+        destruct (H2 eq_refl eq_refl ED) as [X _]. contradiction.
   - (* AsyncFunctionDef *)
     split; [discriminate|]. intros [_ [_ [_ [_ [_ [H _]]]]]]. exfalso. apply H. reflexivity.
   - (* Await *)
@@ -247,15 +284,35 @@ Definition global_leaf (t : tree) : Prop :=
 Lemma global_leaf_kid t l c : global_leaf t -> In (l, c) (kids_of t) -> global_leaf c.
 Proof. intros H Hin d Hd. apply H. eapply desc_kid; eassumption. Qed.
 
-Lemma visit_unfold ap t :
-  visit ap t = local ap t ++ (if descends t then flat_map (fun p => visit ap (snd p)) (kids_of t) else []).
+Lemma visit_unfold ap callee t :
+  visit ap callee t = local ap callee t ++
+    (if descends t then flat_map (fun p => visit ap (marks (kind_of t) (fst p) (snd p)) (snd p)) (kids_of t) else []).
 Proof. destruct t; reflexivity. Qed.
 
 Lemma desc_unfold t : desc t = t :: flat_map (fun p => desc (snd p)) (kids_of t).
 Proof. destruct t; reflexivity. Qed.
 
+(* all descendants together with the only context the visitor carries: is the node the callee
+   (a Name in the func field) of the Call directly above it *)
+Fixpoint descc (callee : bool) (t : tree) : list (bool * tree) :=
+  (callee, t) :: match t with T k _ _ ks => flat_map (fun p => descc (marks k (fst p) (snd p)) (snd p)) ks end.
+
+Lemma descc_unfold callee t :
+  descc callee t = (callee, t) :: flat_map (fun p => descc (marks (kind_of t) (fst p) (snd p)) (snd p)) (kids_of t).
+Proof. destruct t; reflexivity. Qed.
+
+(* descc forgets nothing: it is desc with one bit attached to every node *)
+Lemma descc_desc callee t : map snd (descc callee t) = desc t.
+Proof.
+  revert callee. induction t as [k ss fs ks IH] using tree_ind'. intros callee.
+  cbn [descc desc map snd]. f_equal.
+  induction ks as [|[l c] ks IHks]; [reflexivity|].
+  cbn [flat_map]. rewrite map_app. inversion IH as [|x y Hc Hks]; subst. cbn [snd fst] in *.
+  rewrite Hc. f_equal. apply IHks. exact Hks.
+Qed.
+
 (* the only way not to descend, without having already reported something, is a Global node *)
-Lemma no_descent ap t : descends t = false -> local ap t = [] -> kind_of t = $"Global".
+Lemma no_descent ap callee t : descends t = false -> local ap callee t = [] -> kind_of t = $"Global".
 Proof.
   unfold descends, local. pose proof (klass_inv (kind_of t)) as HK.
   destruct (klass (kind_of t)); try discriminate.
@@ -263,61 +320,141 @@ Proof.
   - intros _ _. exact HK.
 Qed.
 
-Lemma visit_complete ap t :
-  global_leaf t -> visit ap t = [] -> forall d, In d (desc t) -> local ap d = [].
+Lemma visit_complete ap t : forall callee,
+  global_leaf t -> visit ap callee t = [] -> forall b d, In (b, d) (descc callee t) -> local ap b d = [].
 Proof.
-  induction t as [k ss fs ks IH] using tree_ind'. intros HG HV d Hd.
+  induction t as [k ss fs ks IH] using tree_ind'. intros callee HG HV b d Hd.
   rewrite visit_unfold in HV. apply app_eq_nil in HV as [HL HK].
-  rewrite desc_unfold in Hd. destruct Hd as [<-|Hd]; [exact HL|].
-  cbn [kids_of] in *. apply in_flat_map in Hd as [[l c] [Hin Hdc]]. cbn [snd] in Hdc.
+  rewrite descc_unfold in Hd. destruct Hd as [E|Hd]; [injection E as <- <-; exact HL|].
+  cbn [kids_of kind_of] in *. apply in_flat_map in Hd as [[l c] [Hin Hdc]]. cbn [snd fst] in Hdc.
   destruct (descends (T k ss fs ks)) eqn:ED.
-  - rewrite flat_map_nil in HK. specialize (HK (l, c) Hin). cbn [snd] in HK.
-    rewrite Forall_forall in IH. apply (IH (l, c) Hin); try assumption.
+  - rewrite flat_map_nil in HK. specialize (HK (l, c) Hin). cbn [snd fst] in HK.
+    rewrite Forall_forall in IH. apply (IH (l, c) Hin (marks k l c)); try assumption.
     eapply global_leaf_kid; [exact HG|exact Hin].
-  - exfalso. pose proof (no_descent ap _ ED HL) as HGl.
+  - exfalso. pose proof (no_descent ap _ _ ED HL) as HGl.
     assert (E : kids_of (T k ss fs ks) = []) by (apply HG; [apply desc_self|exact HGl]).
     cbn [kids_of] in E. subst ks. destruct Hin.
 Qed.
 
-Lemma visit_sound ap t : (forall d, In d (desc t) -> local ap d = []) -> visit ap t = [].
+Lemma visit_sound ap t : forall callee,
+  (forall b d, In (b, d) (descc callee t) -> local ap b d = []) -> visit ap callee t = [].
 Proof.
-  induction t as [k ss fs ks IH] using tree_ind'. intros H.
-  rewrite visit_unfold. rewrite (H _ (desc_self _)). cbn [app kids_of].
+  induction t as [k ss fs ks IH] using tree_ind'. intros callee H.
+  rewrite visit_unfold. rewrite (H callee (T k ss fs ks)) by (rewrite descc_unfold; left; reflexivity).
+  cbn [app kids_of kind_of].
   destruct (descends (T k ss fs ks)); [|reflexivity].
-  apply flat_map_nil. intros [l c] Hin. cbn [snd]. rewrite Forall_forall in IH.
-  apply (IH (l, c) Hin). intros d Hd. apply H. eapply desc_kid; [exact Hin|exact Hd].
+  apply flat_map_nil. intros [l c] Hin. cbn [snd fst]. rewrite Forall_forall in IH.
+  apply (IH (l, c) Hin). intros b d Hd. apply H. rewrite descc_unfold. right. cbn [kids_of kind_of].
+  apply in_flat_map. exists (l, c). split; [exact Hin|exact Hd].
 Qed.
 
-Lemma visitor ap t : global_leaf t -> visit ap t = [] -> forall d, In d (desc t) -> node_ok ap d.
-Proof. intros HG HV d Hd. apply local_nil_iff. eapply visit_complete; eassumption. Qed.
+Lemma visitor ap t : global_leaf t -> visit ap false t = [] ->
+  forall b d, In (b, d) (descc false t) -> node_ok ap b d.
+Proof. intros HG HV b d Hd. apply local_nil_iff. eapply visit_complete; eassumption. Qed.
 
-Lemma visitor_iff ap t : global_leaf t -> (visit ap t = [] <-> forall d, In d (desc t) -> node_ok ap d).
+Lemma visitor_iff ap t : global_leaf t ->
+  (visit ap false t = [] <-> forall b d, In (b, d) (descc false t) -> node_ok ap b d).
 Proof.
   intros HG. split; [apply visitor; exact HG|].
-  intros H. apply visit_sound. intros d Hd. apply local_nil_iff. apply H. exact Hd.
+  intros H. apply visit_sound. intros b d Hd. apply local_nil_iff. apply H. exact Hd.
+Qed.
+
+(* every node of the tree is judged: each descendant appears in descc, with its context *)
+Lemma visitor_all_nodes ap t : global_leaf t -> visit ap false t = [] ->
+  forall d, In d (desc t) -> exists b, In (b, d) (descc false t) /\ node_ok ap b d.
+Proof.
+  intros HG HV d Hd. rewrite <- (descc_desc false t) in Hd. apply in_map_iff in Hd as [[b d'] [E Hin]].
+  cbn [snd] in E. subst d'. exists b. split; [exact Hin|]. eapply visitor; eassumption.
 Qed.
 
 (* the hypothesis is needed: over arbitrary rose trees visit_Global (`pass`) hides its subtree *)
 Lemma global_leaf_needed :
-  exists t, visit true t = [] /\ exists d, In d (desc t) /\ ~ node_ok true d.
+  exists t, visit true false t = [] /\ exists b d, In (b, d) (descc false t) /\ ~ node_ok true b d.
 Proof.
   exists (T $"Global" [] [] [($"names", T $"Await" [] [] [])]). split; [vm_compute; reflexivity|].
-  exists (T $"Await" [] [] []). split; [cbn; tauto|].
+  exists false, (T $"Await" [] [] []). split; [cbn; tauto|].
   intros [_ [_ [_ [_ [_ [_ [H _]]]]]]]. apply H. reflexivity.
 Qed.
 
 (* every violation is reported by some node, in document order: the list is the concatenation of the
    per-node reports over the nodes the visitor reaches *)
-Fixpoint reach (t : tree) : list tree :=
+Fixpoint reach (callee : bool) (t : tree) : list (bool * tree) :=
   match t with
-  | T k ss fs ks => T k ss fs ks :: (if descends (T k ss fs ks) then flat_map (fun p => reach (snd p)) ks else [])
+  | T k ss fs ks =>
+      (callee, T k ss fs ks) ::
+      (if descends (T k ss fs ks) then flat_map (fun p => reach (marks k (fst p) (snd p)) (snd p)) ks else [])
   end.
 
-Lemma visit_reach ap t : visit ap t = flat_map (local ap) (reach t).
+Lemma visit_reach ap t : forall callee,
+  visit ap callee t = flat_map (fun p => local ap (fst p) (snd p)) (reach callee t).
 Proof.
-  induction t as [k ss fs ks IH] using tree_ind'. cbn [visit reach flat_map]. f_equal.
+  induction t as [k ss fs ks IH] using tree_ind'. intros callee. cbn [visit reach flat_map fst snd]. f_equal.
   destruct (descends (T k ss fs ks)); [|reflexivity].
   induction ks as [|[l c] ks IHks]; [reflexivity|].
-  cbn [flat_map snd]. rewrite flat_map_app. inversion IH as [|x y Hc Hks]; subst. cbn [snd] in Hc.
+  cbn [flat_map snd fst]. rewrite flat_map_app. inversion IH as [|x y Hc Hks]; subst. cbn [snd] in Hc.
   rewrite Hc. f_equal. apply IHks. exact Hks.
+Qed.
+
+(* imported_roots is collected over the same nodes *)
+Lemma roots_reach t : forall callee, roots t = flat_map (fun p => node_roots (snd p)) (reach callee t).
+Proof.
+  induction t as [k ss fs ks IH] using tree_ind'. intros callee. cbn [roots reach flat_map snd]. f_equal.
+  destruct (descends (T k ss fs ks)); [|reflexivity].
+  induction ks as [|[l c] ks IHks]; [reflexivity|].
+  cbn [flat_map snd fst]. rewrite flat_map_app. inversion IH as [|x y Hc Hks]; subst. cbn [snd] in Hc.
+  rewrite (Hc (marks k l c)). f_equal. apply IHks. exact Hks.
+Qed.
+
+Lemma insert_sorted_In x y l : In y (insert_sorted x l) <-> y = x \/ In y l.
+Proof.
+  induction l as [|z l IH]; cbn [insert_sorted In]; [intuition|].
+  destruct (str_eqb_spec x z) as [->|Hn]; [cbn [In]; intuition|].
+  destruct (str_ltb x z); cbn [In]; [intuition|]. rewrite IH. intuition.
+Qed.
+
+Lemma sorted_set_In y l : In y (sorted_set l) <-> In y l.
+Proof.
+  induction l as [|x l IH]; cbn [sorted_set fold_right In]; [tauto|].
+  fold (sorted_set l). rewrite insert_sorted_In, IH. intuition.
+Qed.
+
+(* analyze_python_source reports nothing iff the visitor reports nothing and no imported root has a
+   sibling file or directory of that name *)
+Lemma source_viols_nil sibling ap t :
+  source_viols sibling ap t = [] <-> visit ap false t = [] /\ forall r, In r (roots t) -> sibling r = false.
+Proof.
+  unfold source_viols. split.
+  - intros H. apply app_eq_nil in H as [H1 H2]. split; [exact H1|]. intros r Hr.
+    rewrite flat_map_nil in H2. specialize (H2 r (proj2 (sorted_set_In r _) Hr)).
+    destruct (sibling r); [discriminate|reflexivity].
+  - intros [H1 H2]. rewrite H1. cbn [app]. apply flat_map_nil. intros r Hr.
+    apply (proj1 (sorted_set_In r _)) in Hr. rewrite (H2 r Hr). reflexivity.
+Qed.
+
+(* when the visitor reports nothing every import statement of the tree has contributed its root *)
+Lemma roots_complete ap t : forall callee, global_leaf t -> visit ap callee t = [] ->
+  forall d, In d (desc t) ->
+    (kind_of d = $"Import" -> forall a, In a (children "names" d) -> In (root_of (attr_d "name" a)) (roots t)) /\
+    (kind_of d = $"ImportFrom" -> forall m, attr "module" d = Some m -> In (root_of m) (roots t)).
+Proof.
+  induction t as [k ss fs ks IH] using tree_ind'. intros callee HG HV d Hd.
+  rewrite visit_unfold in HV. apply app_eq_nil in HV as [HL HK].
+  rewrite desc_unfold in Hd. cbn [roots]. destruct Hd as [<-|Hd].
+  - split.
+    + intros Hk a Ha. apply in_or_app. left. unfold node_roots. rewrite Hk.
+      replace (klass $"Import") with CImport by (vm_compute; reflexivity).
+      apply in_map_iff. exists a. split; [reflexivity|exact Ha].
+    + intros Hk m Hm. apply in_or_app. left. unfold node_roots. rewrite Hk.
+      replace (klass $"ImportFrom") with CImportFrom by (vm_compute; reflexivity). rewrite Hm. left. reflexivity.
+  - cbn [kids_of kind_of] in *. apply in_flat_map in Hd as [[l c] [Hin Hdc]]. cbn [snd] in Hdc.
+    destruct (descends (T k ss fs ks)) eqn:ED.
+    + rewrite flat_map_nil in HK. specialize (HK (l, c) Hin). cbn [snd fst] in HK.
+      rewrite Forall_forall in IH.
+      destruct (IH (l, c) Hin (marks k l c) (global_leaf_kid _ _ _ HG Hin) HK d Hdc) as [A1 A2].
+      assert (Sub : forall r, In r (roots c) -> In r (node_roots (T k ss fs ks) ++ flat_map (fun p => roots (snd p)) ks)).
+      { intros r Hr. apply in_or_app. right. apply in_flat_map. exists (l, c). split; [exact Hin|exact Hr]. }
+      split; [intros Hk a Ha; apply Sub, A1; assumption|intros Hk m Hm; apply Sub, (A2 Hk m Hm)].
+    + exfalso. pose proof (no_descent ap _ _ ED HL) as HGl.
+      assert (E : kids_of (T k ss fs ks) = []) by (apply HG; [apply desc_self|exact HGl]).
+      cbn [kids_of] in E. subst ks. destruct Hin.
 Qed.
